@@ -33,36 +33,41 @@ pub struct Cfg {
     /// the client signs with the old credentials. Otherwise both sets use
     /// HMAC-SHA256 and differ in the secret only.
     pub alg_change: bool,
+    /// The signed queriers' requests carry a time signed outside the fudge
+    /// window (answered with a signed BADTIME error).
+    pub stale: bool,
 }
 
 impl Cfg {
     pub fn label(&self) -> String {
-        format!("plain={:?} signed={} swapper={}{}", self.plain, self.signed, self.swapper, if self.alg_change { " alg-change" } else { "" })
+        format!("plain={:?} signed={} swapper={}{}", self.plain, self.signed, self.swapper, if self.alg_change { " alg-change" } else if self.stale { " stale-time" } else { "" })
     }
     pub fn to_json(&self) -> Value {
-        json!({"plain_queriers": self.plain, "signed_queriers": self.signed, "swapper_ops": self.swapper, "key_algorithm_changes": self.alg_change})
+        json!({"plain_queriers": self.plain, "signed_queriers": self.signed, "swapper_ops": self.swapper, "key_algorithm_changes": self.alg_change, "requests_signed_an_hour_ago": self.stale})
     }
 }
 
 pub fn configs(_quick: bool) -> Vec<Cfg> {
     let p = |v: &[&str]| v.iter().map(|s| s.to_string()).collect::<Vec<_>>();
     let mut v = vec![
-        Cfg { plain: p(&["M"]), signed: 0, swapper: "C".into(), alg_change: false },
-        Cfg { plain: p(&["MM"]), signed: 0, swapper: "C".into(), alg_change: false },
-        Cfg { plain: p(&["N"]), signed: 0, swapper: "C".into(), alg_change: false },
-        Cfg { plain: p(&["MN"]), signed: 0, swapper: "CK".into(), alg_change: false },
-        Cfg { plain: p(&["M", "N"]), signed: 0, swapper: "C".into(), alg_change: false },
-        Cfg { plain: p(&["M", "A"]), signed: 0, swapper: "CK".into(), alg_change: false },
-        Cfg { plain: p(&[]), signed: 1, swapper: "K".into(), alg_change: false },
-        Cfg { plain: p(&[]), signed: 1, swapper: "CK".into(), alg_change: false },
-        Cfg { plain: p(&[]), signed: 1, swapper: "KC".into(), alg_change: false },
-        Cfg { plain: p(&["M"]), signed: 1, swapper: "CK".into(), alg_change: false },
-        Cfg { plain: p(&["M"]), signed: 1, swapper: "KC".into(), alg_change: false },
-        Cfg { plain: p(&[]), signed: 2, swapper: "K".into(), alg_change: false },
-        Cfg { plain: p(&["MM"]), signed: 1, swapper: "CK".into(), alg_change: false },
+        Cfg { plain: p(&["M"]), signed: 0, swapper: "C".into(), alg_change: false, stale: false },
+        Cfg { plain: p(&["MM"]), signed: 0, swapper: "C".into(), alg_change: false, stale: false },
+        Cfg { plain: p(&["N"]), signed: 0, swapper: "C".into(), alg_change: false, stale: false },
+        Cfg { plain: p(&["MN"]), signed: 0, swapper: "CK".into(), alg_change: false, stale: false },
+        Cfg { plain: p(&["M", "N"]), signed: 0, swapper: "C".into(), alg_change: false, stale: false },
+        Cfg { plain: p(&["M", "A"]), signed: 0, swapper: "CK".into(), alg_change: false, stale: false },
+        Cfg { plain: p(&[]), signed: 1, swapper: "K".into(), alg_change: false, stale: false },
+        Cfg { plain: p(&[]), signed: 1, swapper: "CK".into(), alg_change: false, stale: false },
+        Cfg { plain: p(&[]), signed: 1, swapper: "KC".into(), alg_change: false, stale: false },
+        Cfg { plain: p(&["M"]), signed: 1, swapper: "CK".into(), alg_change: false, stale: false },
+        Cfg { plain: p(&["M"]), signed: 1, swapper: "KC".into(), alg_change: false, stale: false },
+        Cfg { plain: p(&[]), signed: 2, swapper: "K".into(), alg_change: false, stale: false },
+        Cfg { plain: p(&["MM"]), signed: 1, swapper: "CK".into(), alg_change: false, stale: false },
     ];
     for (signed, swapper) in [(1usize, "K"), (1, "CK"), (1, "KC"), (2, "K")] {
-        v.push(Cfg { plain: vec![], signed, swapper: swapper.into(), alg_change: true });
+        v.push(Cfg { plain: vec![], signed, swapper: swapper.into(), alg_change: true, stale: false });
+        // requests signed an hour ago: the one error response that is itself signed
+        v.push(Cfg { plain: vec![], signed, swapper: swapper.into(), alg_change: false, stale: true });
     }
     v
 }
@@ -184,9 +189,10 @@ pub fn body(cfg: &Cfg) -> ExecReport {
     for si in 0..cfg.signed {
         let (server, sink, kswapped) = (server.clone(), sink.clone(), keys_swapped.clone());
         let alg_change = cfg.alg_change;
+        let stale = cfg.stale;
         hs.push(mcshim::thread::spawn(move || {
             let calg = alg_of(1, alg_change);
-            let now = SystemTime::now().duration_since(SystemTime::UNIX_EPOCH).unwrap().as_secs();
+            let now = SystemTime::now().duration_since(SystemTime::UNIX_EPOCH).unwrap().as_secs() - if stale { 3600 } else { 0 };
             let base = srv::query(0x5100 + si as u16, "a.t.", t::MX);
             let alg_name = calg.wire_name();
             // The client signs with the generation-1 credentials.
@@ -211,7 +217,7 @@ pub fn body(cfg: &Cfg) -> ExecReport {
                 sink.viol("undecodable-response", format!("signed{si}: bad TSIG RDATA"));
                 return;
             };
-            if m.header.rcode == 0 {
+            if m.header.rcode == 0 && !stale {
                 // Verified with s1 => the response must be signed with s1 too.
                 let without = &r[..ts.offset];
                 let vars = reftsig::TsigVars { key_name: ts.name.clone(), alg_name: td.alg_name.clone(), time_signed: td.time_signed, fudge: td.fudge, error: td.error, other: td.other.clone() };
@@ -230,6 +236,26 @@ pub fn body(cfg: &Cfg) -> ExecReport {
                     sink.viol("mixed-key-sets", format!("signed{si}: request verified under secret 1 but response signed under secret 2"));
                 } else {
                     sink.viol("response-mac-invalid", format!("signed{si}: response MAC verifies under neither secret"));
+                }
+            } else if stale && m.header.rcode == 9 && td.error == 18 {
+                // BADTIME (RFC 8945 §5.2.3): the request's MAC verified, so the
+                // response is signed - with the key that verified it.
+                let without = &r[..ts.offset];
+                let vars = reftsig::TsigVars { key_name: ts.name.clone(), alg_name: td.alg_name.clone(), time_signed: td.time_signed, fudge: td.fudge, error: td.error, other: td.other.clone() };
+                let mac1 = reftsig::mac_response(calg, SECRET[1], &req_mac, without, td.original_id, &vars);
+                let mac2 = reftsig::mac_response(calg, SECRET[2], &req_mac, without, td.original_id, &vars);
+                if td.mac == mac1 {
+                    if keys_new_before {
+                        sink.viol("stale-keys-after-swap-returned", format!("signed{si}: request started after set_tsig_keys returned but was verified with the old secret"));
+                    }
+                    if !m.answers.is_empty() {
+                        sink.viol("answer-data-with-badtime", format!("signed{si}"));
+                    }
+                    sink.outcomes.lock().unwrap().push(format!("signed{si}:badtime-s1"));
+                } else if td.mac == mac2 {
+                    sink.viol("mixed-key-sets", format!("signed{si}: request verified under secret 1 but the BADTIME response is signed under secret 2"));
+                } else {
+                    sink.viol("response-mac-invalid", format!("signed{si}: BADTIME response MAC verifies under neither secret"));
                 }
             } else if alg_change && m.header.rcode == 9 && td.error == 17 && td.mac.is_empty() {
                 // BADKEY: key set 2 has no key `k.` for the client's algorithm.
